@@ -1,11 +1,10 @@
 (* C09  Each JFA training phase is exact EM: its marginal likelihood never decreases.
-   Proved here: the D phase in full (any numbers of components, features, classes, sessions) and its
-   scalar core; the V phase and the U phase in full for rank-1 subspaces (the code's e_step_v / m_step_v and e_step_u / m_step_u, any
-   numbers of components, features, classes, sessions); the V and U phases for rank > 1 need
-   ln det A <= tr A - n (no determinant theory over R is installed) and are validated numerically by the
-   check - see DESIGN.md. *)
+   Proved here: the D phase in full (any numbers of components, features, classes, sessions) and its scalar core; the V phase and the
+   U phase for subspaces of ANY rank (the code's e_step_v / m_step_v and e_step_u / m_step_u; ln det of the posterior precisions through a
+   Cholesky factor supplied by an oracle under a contract, no determinant theory); the rank-1 theorems (solver used on 1x1 matrices
+   only, closed-form EM step) are kept as the special case. *)
 From Coq Require Import Reals List.
-From BLE Require Import Num.InstR Model.FA Proofs.RLemmas Proofs.FAEnroll Proofs.JFATrain Proofs.JFARank1 Proofs.JFARank1U.
+From BLE Require Import Num.InstR Model.FA Proofs.RLemmas Proofs.FAEnroll Proofs.JFATrain Proofs.JFARank1 Proofs.JFARank1U Proofs.JFAGeneral.
 Import ListNotations FR.
 Open Scope R_scope.
 
@@ -68,3 +67,34 @@ Theorem C09_phase_U_rank1_iteration_monotone (inv : list (list R) -> list (list 
   /\ marginal_u D u F (fU F) classes ys <= marginal_u D u F (fU F') classes ys.
 Proof. exact (phase_u_monotone_rank1 inv C D rV u F classes ys). Qed.
 Print Assumptions C09_phase_U_rank1_iteration_monotone.
+
+(* Any rank of the speaker subspace V: one V-phase iteration never lowers the phase marginal of the training statistics
+     sum_i [ 1/2 b_i' P_i^-1 b_i - 1/2 ln det P_i ],  P_i = I + sum_c N_ic V_c' S_c^-1 V_c,  b_i = V' S^-1 (F_i - N_i m)   (classes i),
+   and leaves U and D alone. *)
+Theorem C09_phase_V_iteration_monotone_any_rank (inv chol : list (list R) -> list (list R)) (C D rU rV : nat) (u : ubm) (F : fa) (classes : list (list gstat)) :
+  ubm_ok C D u -> fa_ok C D rU rV F -> Forall (Forall (gstat_ok C D)) classes ->
+  v_oracles_ok inv chol rV D u F classes ->
+  (forall c, (c < C)%nat -> inv_ok inv rV (nth c (fst (acc_v inv rU rV D u F classes)) [])) ->
+  let F' := jfa_iter_v inv rU rV D u classes F in
+  v_oracles_ok inv chol rV D u F' classes ->
+  fU F' = fU F /\ fD F' = fD F
+  /\ marginal_v_t inv chol rV D u F classes <= marginal_v_t inv chol rV D u F' classes.
+Proof. exact (phase_v_monotone_general inv chol C D rU rV u F classes). Qed.
+Print Assumptions C09_phase_V_iteration_monotone_any_rank.
+
+(* Any rank of the channel subspace U: one U-phase iteration (speaker factors ys held at their point estimates, z = 0) never lowers the phase
+   marginal over the sessions, statistics centred by m + V y_i, and leaves V and D alone. *)
+Theorem C09_phase_U_iteration_monotone_any_rank (inv chol : list (list R) -> list (list R)) (C D rU rV : nat) (u : ubm) (F : fa)
+    (classes : list (list gstat)) (ys : list (option (list R))) :
+  ubm_ok C D u -> fa_ok C D rU rV F -> Forall (Forall (gstat_ok C D)) classes ->
+  length ys = length classes -> Forall (yopt_ok rV) ys ->
+  u_oracles_ok inv chol rU D u F classes ->
+  (forall c, (c < C)%nat ->
+     inv_ok inv rU (nth c (fst (acc_u inv rU D u F classes ys (map (fun _ => @None (list R)) classes)
+                                      (map (fun _ => Some (V.vzero (length (msuper u)))) classes))) [])) ->
+  let F' := jfa_iter_u inv rU D u classes ys F in
+  u_oracles_ok inv chol rU D u F' classes ->
+  fV F' = fV F /\ fD F' = fD F
+  /\ marginal_u_t inv chol rU D u F F classes ys <= marginal_u_t inv chol rU D u F F' classes ys.
+Proof. exact (phase_u_monotone_general inv chol C D rU rV u F classes ys). Qed.
+Print Assumptions C09_phase_U_iteration_monotone_any_rank.
